@@ -113,7 +113,7 @@ func (g c04Graph) build() *gen.World {
 	rootDefs := map[string]interface{}{}
 	otherDefs := map[string]interface{}{}
 	root := map[string]interface{}{"swagger": "2.0", "info": map[string]interface{}{"title": "t", "version": "1"}, "definitions": rootDefs,
-		"illtyped": map[string]interface{}{"v": []interface{}{"a string", float64(3), true, []interface{}{float64(1)}}[g.posSeed%4]}}
+		"illtyped": map[string]interface{}{"v": []interface{}{"a string", float64(3), true, []interface{}{float64(1)}, nil}[g.posSeed%5]}}
 	for node := 0; node < g.n; node++ {
 		doc := docOf(node)
 		s := map[string]interface{}{"title": fmt.Sprintf("n%d", node)}
